@@ -242,28 +242,37 @@ def allocArrays : Nat → List (Option Nat) → AllocM (List (Option Nat))
   | 0, acc => fun h => (acc.reverse, h)
   | n + 1, acc => fun h => let r := alloc fail h; allocArrays n (r.1 :: acc) r.2
 
-/-- one external: `yr_object_from_external_variable` (object + identifier + value, freed by itself
-    on failure) then `yr_hash_table_add` (entry + key); cleanup on failure is
-    `yr_object_destroy(object); yr_scanner_destroy(new_scanner)`. -/
-def addExternal (s : Scanner) : AllocM (Option Scanner) := fun h =>
+/-- one external: `yr_object_from_external_variable` (object + identifier, for a string external also
+    the value copy; freed by itself on failure) then `yr_hash_table_add` (entry + key); cleanup on
+    failure is `yr_object_destroy(object); yr_scanner_destroy(new_scanner)`. -/
+def addExternal (isStr : Bool) (s : Scanner) : AllocM (Option Scanner) := fun h =>
   match alloc fail h with
   | (none, h1) => (none, (scannerDestroy s h1).2)
   | (some o, h1) =>
     match alloc fail h1 with
     | (none, h2) => (none, (scannerDestroy s (free o h2).2).2)
     | (some idn, h2) =>
-      match hashAdd fail false h2 with
+      let rv : Option (List Nat) × Heap :=
+        if isStr then
+          match alloc fail h2 with
+          | (none, h3) => (none, h3)
+          | (some v, h3) => (some [v], h3)
+        else (some [], h2)
+      match rv with
       | (none, h3) => (none, (scannerDestroy s (free idn (free o h3).2).2).2)
-      | (some ent, h3) => (some { s with table := s.table ++ [o, idn] ++ ent }, h3)
+      | (some val, h3) =>
+        match hashAdd fail false h3 with
+        | (none, h4) => (none, (scannerDestroy s (freeAll val (free idn (free o h4).2).2).2).2)
+        | (some ent, h4) => (some { s with table := s.table ++ [o, idn] ++ val ++ ent }, h4)
 
-def addExternals : Nat → Scanner → AllocM (Option Scanner)
-  | 0, s => fun h => (some s, h)
-  | n + 1, s => fun h =>
-    match addExternal fail s h with
+def addExternals : List Bool → Scanner → AllocM (Option Scanner)
+  | [], s => fun h => (some s, h)
+  | e :: es, s => fun h =>
+    match addExternal fail e s h with
     | (none, h1) => (none, h1)
-    | (some s', h1) => addExternals n s' h1
+    | (some s', h1) => addExternals es s' h1
 
-def scannerCreate (nExternals : Nat) : AllocM (Option Scanner) := fun h =>
+def scannerCreate (externals : List Bool) : AllocM (Option Scanner) := fun h =>
   match alloc fail h with
   | (none, h1) => (none, h1)
   | (some self, h1) =>
@@ -273,6 +282,6 @@ def scannerCreate (nExternals : Nat) : AllocM (Option Scanner) := fun h =>
       let r := allocArrays fail 6 [] h2
       let s : Scanner := ⟨self, [tbl], r.1⟩
       if r.1.any Option.isNone then (none, (scannerDestroy s r.2).2)
-      else addExternals fail nExternals s r.2
+      else addExternals fail externals s r.2
 
 end YaraModel.AllocM
